@@ -1356,7 +1356,7 @@ func (e *Engine) cmp(st *State, a, b AbsVal, op token.Token, xv, yv ssa.Value) A
 			// l.r.Pos() compared with another mark: undecided, no refinement
 			return top
 		}
-	case kOffset, vAtomLen, kHeapRef:
+	case kOffset, vAtomLen, kHeapRef, kLenOf:
 		if bConst {
 			if a.k == vAtomLen {
 				if pz, known := st.heap["pos:"+a.atom].constInt(); known {
